@@ -65,6 +65,33 @@ Adopt(s, o) == [s EXCEPT !.rpos = o.rp, !.wpos = o.wp,
 -----------------------------------------------------------------------------
 \* sf_read_short/int/float/double and sf_readf_* (c.T in s i f d; c.unit in i f)
 
+\* ---- agreement of the four caller types on integer-coded data (C02) ----
+\* Every decoder of an integer-coded encoding produces a 32 bit left-justified value L per sample: sf_read_int delivers L,
+\* sf_read_short its upper 16 bits, sf_read_double (normalisation on) L / 2^31 and sf_read_float that value rounded to
+\* 24 significant bits (nearest, ties to even).  L is known once the item is known under type "i", or under "s" when the
+\* encoding holds no more than 16 bits.
+LeftJust(sub, k, v) == IF DecWidth(sub) = 0 THEN <<FALSE, 0>>
+                       ELSE IF k = "i" THEN <<TRUE, v>>
+                       ELSE IF k = "s" /\ DecWidth(sub) <= 16 THEN <<TRUE, v * 65536>>
+                       ELSE <<FALSE, 0>>
+BitLen31(n) == IF n = 0 THEN 0 ELSE CHOOSE k \in 1..31 : n >= Pow2(k - 1) /\ (k = 31 \/ n < Pow2(k))
+RoundHE(n, k) == LET q == n \div Pow2(k)  r == n % Pow2(k)  h == Pow2(k - 1) IN IF r > h \/ (r = h /\ q % 2 = 1) THEN q + 1 ELSE q
+DoubleOfL(L) == IF L = -2147483647 - 1 THEN <<-1, 0>> ELSE DySplit(DyNorm(L, -31))
+FloatOfL(L) == IF L = -2147483647 - 1 THEN <<-1, 0>>
+               ELSE LET a == Abs(L)  b == BitLen31(a) IN
+                    IF b <= 24 THEN DyNorm(L, -31)
+                    ELSE LET k == b - 24 IN DyNorm((IF L < 0 THEN -1 ELSE 1) * RoundHE(a, k), k - 31)
+XTypeOK(s, c, k, v, x) ==
+    LET lj == LeftJust(Sub(s.fmt), k, v) IN
+    IF ~lj[1] THEN TRUE
+    ELSE CASE c.T = "i" -> x = lj[2]
+           [] c.T = "s" -> x = lj[2] \div 65536
+           [] c.T = "f" -> ("dy" \in DOMAIN c /\ c.dy /\ s.nf = 1) => x = FloatOfL(lj[2])
+           [] c.T = "d" -> ("dy" \in DOMAIN c /\ c.dy /\ s.nd = 1) => x = DoubleOfL(lj[2])
+           [] OTHER -> TRUE
+
+ItemOK(s, c, k, v, x) == IF k = c.T THEN v = x ELSE IF k = "-" THEN TRUE ELSE XTypeOK(s, c, k, v, x)
+
 ReadInvalid(s, c) == c.n < 0 \/ s.mode = SFM_WRITE \/ (c.unit = "i" /\ c.n % s.ch # 0)
 
 ReadOK(s, cv, c, o) ==
@@ -82,13 +109,16 @@ ReadOK(s, cv, c, o) ==
                /\ o.outn = ri                                   \* exactly the returned number of items is delivered
                /\ (~s.relax) => Len(o.out) = ri
                \* (under faults a short transfer can leave the stream misaligned: no data clause then)
-               /\ s.relax \/ \A i \in 1..ri : (base + i <= Len(cv.kt) /\ cv.kt[base + i] = c.T) => cv.val[base + i] = o.out[i]
+               \* (written as a set comparison so that TLC evaluates it as a value: a disjunction under \A inside ENABLED branches)
+               /\ s.relax \/ {i \in 1..ri : base + i <= Len(cv.kt) /\ ~ItemOK(s, c, cv.kt[base + i], cv.val[base + i], o.out[i])} = {}
 
 ReadPost(s, cv, c, o) ==
     IF c.n <= 0 \/ ReadInvalid(s, c) \/ s.rpos >= s.frames \/ s.relax THEN [s |-> Adopt(s, o), cv |-> cv]
     ELSE LET ri == RetItems(s, c, o)  base == s.rpos * s.ch
-             v2 == Splice(cv.val, base, o.out, 0)
-             k2 == Splice(cv.kt, base, Rep(c.T, ri), "-")
+             \* an item whose left-justified code is already known keeps that (it determines the value under every type)
+             keep(i) == base + i <= Len(cv.kt) /\ LeftJust(Sub(s.fmt), cv.kt[base + i], cv.val[base + i])[1]
+             v2 == Splice(cv.val, base, [i \in 1..ri |-> IF keep(i) THEN cv.val[base + i] ELSE o.out[i]], 0)
+             k2 == Splice(cv.kt, base, [i \in 1..ri |-> IF keep(i) THEN cv.kt[base + i] ELSE c.T], "-")
          IN [s |-> Adopt(s, o), cv |-> [cv EXCEPT !.val = v2, !.kt = k2]]
 
 ReadPred(s, cv, c) ==
@@ -257,5 +287,6 @@ FramesInImage(B, hdrN, F) == F = (hdrN \div B) * B \/ F = hdrN
 InfoMatches(fmt, ch, rate, info) ==
     /\ info.ch = ch
     /\ Major(info.fmt) = Major(fmt) /\ Sub(info.fmt) = Sub(fmt)
+    /\ MultiByte(Sub(fmt)) => EffOrder(info.fmt) = EffOrder(fmt)      \* byte order where the container records it
     /\ ExactRate(fmt) => info.rate = rate
 =============================================================================
